@@ -1,7 +1,7 @@
 (* C20 — Reopen reaches every node of every registered pipeline.  The iteration order of the graph map and of each
    pipeline Range is the order of the list [gs]; the theorems hold for every [gs], hence for every order. *)
 From Coq Require Import List NArith.
-From Verif Require Import Alist Broker BrokerProofs BrokerExamples.
+From Verif Require Import Alist Broker BrokerProofs BrokerExamples Run_Broker RunBrokerProofs.
 Import ListNotations.
 
 (* no node fails: the error is nil and every node of every pipeline of every graph had Reopen invoked *)
@@ -30,6 +30,15 @@ Theorem C20_reopen_errors_are_real : forall fails gs,
   snd (reopen_graphs fails gs) = filter fails (fst (reopen_graphs fails gs)).
 Proof. exact reopen_errors_are_real. Qed.
 Print Assumptions C20_reopen_errors_are_real.
+
+(* tie between the theorems and the check: the executable acceptor that judges the implementation's observed Reopen
+   (result, carried failure, set of reopened objects) accepts what the model does under every visiting order *)
+Theorem C20_reopen_accepts_sound : forall b f gs,
+  (forall o, In o (concat (concat gs)) <-> In o (all_linked_objs b)) ->
+  let r := reopen_graphs (N.eqb f) gs in
+  reopen_accepts b f (reopen_obs (nilp (snd r)) (memN f (snd r)) (sortN (distinct (fst r)))) = true.
+Proof. exact reopen_accepts_sound. Qed.
+Print Assumptions C20_reopen_accepts_sound.
 
 Theorem C20_nonvacuous : snd (reopen_graphs (N.eqb 12%N) (graphs_of (run nocf h1))) = [12%N].
 Proof. exact reopen_fail. Qed.
